@@ -353,7 +353,7 @@ fn record_pat_in_frag(
 /// the function variables in scope — names bound by enclosing `Named::Recursive` groups to
 /// closures with at least one parameter — with their arity). `counts`: (function bodies seen,
 /// bodies inside F1, bodies inside F2).
-fn in_frag(e: &Expr, phi: &Vec<(usize, usize)>, counts: &mut (u64, u64, u64)) -> (bool, bool) {
+fn in_frag(e: &Expr, phi: &Vec<(usize, usize)>, counts: &mut (u64, u64, u64, u64)) -> (bool, bool) {
     let env = empty_env();
     let key = |s: &Symbol| s.as_str().as_ptr() as usize;
     let and = |a: (bool, bool), b: (bool, bool)| (a.0 && b.0, a.1 && b.1);
@@ -383,6 +383,9 @@ fn in_frag(e: &Expr, phi: &Vec<(usize, usize)>, counts: &mut (u64, u64, u64)) ->
                     }
                     if ok.1 {
                         counts.2 += 1;
+                    }
+                    if in_f3(c.expr, &phi2) {
+                        counts.3 += 1;
                     }
                 }
                 in_frag(body, &phi2, counts);
@@ -442,6 +445,44 @@ fn in_frag(e: &Expr, phi: &Vec<(usize, usize)>, counts: &mut (u64, u64, u64)) ->
             }
             all
         }
+    }
+}
+
+/// F3 (partial) membership of a function body (`GluonModel.Proofs.Compile.inF3`, without its
+/// well-scopedness side condition, which holds for checked programs and is evaluated by the
+/// driver): an F2 expression preceded by a chain of one-element `Named::Recursive` lambda bindings
+/// (body in F2 relative to the enclosing function variables and the bound name itself) and plain
+/// `let`s with an F2 right-hand side.
+fn in_f3(e: &Expr, phi: &Vec<(usize, usize)>) -> bool {
+    let key = |s: &Symbol| s.as_str().as_ptr() as usize;
+    let mut dummy = (0u64, 0u64, 0u64, 0u64);
+    match e {
+        Expr::Let(lb, body) => match &lb.expr {
+            Named::Recursive(cs) => {
+                if cs.len() != 1 || cs[0].args.is_empty() {
+                    return false;
+                }
+                let c = &cs[0];
+                let f = key(&c.name.name);
+                if phi.iter().any(|p| p.0 == f) {
+                    return false;
+                }
+                let mut phi2 = phi.clone();
+                phi2.push((f, c.args.len()));
+                if c.args.iter().any(|a| phi2.iter().any(|p| p.0 == key(&a.name))) {
+                    return false;
+                }
+                in_frag(c.expr, &phi2, &mut dummy).1 && in_f3(body, &phi2)
+            }
+            Named::Expr(b) => {
+                if in_frag(e, phi, &mut dummy).1 {
+                    return true;
+                }
+                let x = key(&lb.name.name);
+                !phi.iter().any(|p| p.0 == x) && in_frag(b, phi, &mut dummy).1 && in_f3(body, phi)
+            }
+        },
+        _ => in_frag(e, phi, &mut dummy).1,
     }
 }
 
@@ -669,8 +710,11 @@ fn process(vm: &Thread, name: &str, src: &str) -> String {
         })
         .unwrap_or(0);
     let bc = module_sexp(&mut n, &cv.module);
-    let mut frag = (0u64, 0u64, 0u64);
+    let mut frag = (0u64, 0u64, 0u64, 0u64);
     let top = in_frag(cv.core_expr.value.expr(), &vec![], &mut frag);
+    if in_f3(cv.core_expr.value.expr(), &vec![]) {
+        frag.3 += 1;
+    }
     frag.0 += 1;
     if top.0 {
         frag.1 += 1;
@@ -703,7 +747,7 @@ fn process(vm: &Thread, name: &str, src: &str) -> String {
         Ok(Ok(v)) => format!("(ok {})", surf::canon_value(v.value.get_variant())),
         Ok(Err(e)) => surf::classify_error(&format!("{}", e)),
     };
-    serde_json::json!({"core": core, "bc": bc, "globals": globals, "result": result, "nfun": nfun, "outside": outside, "se_idx": se_idx, "frag_total": frag.0, "frag_in": frag.1, "frag_in2": frag.2}).to_string()
+    serde_json::json!({"core": core, "bc": bc, "globals": globals, "result": result, "nfun": nfun, "outside": outside, "se_idx": se_idx, "frag_total": frag.0, "frag_in": frag.1, "frag_in2": frag.2, "frag_in3": frag.3}).to_string()
 }
 
 fn child(optimize: bool) {
@@ -841,15 +885,17 @@ fn main() {
                 }
             }
             out.case(&format!("runbc {} {}", globals, bc), &result);
-            let (ft, fi, f2) = (
+            let (ft, fi, f2, f3) = (
                 v["frag_total"].as_u64().unwrap_or(0),
                 v["frag_in"].as_u64().unwrap_or(0),
                 v["frag_in2"].as_u64().unwrap_or(0),
+                v["frag_in3"].as_u64().unwrap_or(0),
             );
             out.add("function-bodies", ft);
             out.add("function-bodies-in-proved-fragment-F1", fi);
             out.add("function-bodies-in-proved-fragment-F2(calls-of-known-closures)", f2);
-            out.case(&format!("fragcount {}", core), &format!("({} {} {})", ft, fi, f2));
+            out.add("function-bodies-in-proved-fragment-F3partial(closure-creation-chains)", f3);
+            out.case(&format!("fragcount {}", core), &format!("({} {} {} {})", ft, fi, f2, f3));
         }
     }
     out.finish();
